@@ -201,6 +201,8 @@ def run(rep):
             ok = len(got) == len(want) and all(formats.same(a, b) for a, b in zip(got, want))
         if not ok:
             rep.violation(f"{sp['name']}: result differs from the expanded JSON form", {"case": sp, "observed": o})
+    import decodecheck
+    decodecheck.run(rep, 2500 if rep.tier == "quick" else 80000)
     if rep.broken and not rep.violations:
         rep.violation("proof obligation no longer checks: " + "; ".join(b["obligation"] for b in rep.broken), {"broken": rep.broken}, no_input=True)
     rep.assumptions.append("the decoders are parameters of the theorems (Bkl.Stream.normalize / yamlTranslate); their agreement is what the 3^n runs measure")
@@ -208,6 +210,9 @@ def run(rep):
 
 def replay(rep, payload):
     c = payload["case"]
+    if "decode" in c:
+        import decodecheck
+        return 1 if decodecheck.evaluate(rep, [c["decode"]]) else 0
     if "layers" in c:
         return 1 if evaluate(rep, [c]) else 0
     o = run_special(c)
